@@ -132,6 +132,15 @@ impl<'a, R: BufRead> LogCat2DltMsgIterator<'a, R> {
         (timestamp_us / 100) as u32
     }
 
+    /// reception time for a timestamp relative to the recorded start time.
+    ///
+    /// limited to i64::MAX as the time calculations (e.g. lifecycle detection) add to reception times
+    fn reception_time_us_from(&self, timestamp_us: u64) -> u64 {
+        self.recorded_start_time_us
+            .saturating_add(timestamp_us)
+            .min(i64::MAX as u64)
+    }
+
     /// return a DLT control response msg GET_LOG_INFO with the apid and tag as description
     fn get_apid_info_msg(
         &mut self,
@@ -196,7 +205,7 @@ fn parse_time_str(timestamp: &str) -> u64 {
     let dot_idx = timestamp.find('.').unwrap_or(timestamp.len());
 
     let timestamp_secs_us: u64 =
-        timestamp[0..dot_idx].parse::<u64>().unwrap_or_default() * US_PER_SEC;
+        timestamp[0..dot_idx].parse::<u64>().unwrap_or_default().saturating_mul(US_PER_SEC);
 
     let timestamp_fraction_us = if dot_idx < timestamp.len() {
         let timestamp_fraction_str = &timestamp[dot_idx + 1..];
@@ -219,7 +228,7 @@ fn parse_time_str(timestamp: &str) -> u64 {
     } else {
         0
     };
-    timestamp_secs_us + timestamp_fraction_us
+    timestamp_secs_us.saturating_add(timestamp_fraction_us)
 }
 
 /// parse a mmdd string into a NaiveDate:
@@ -331,7 +340,7 @@ where
                             self.get_apid_info_msg(
                                 &apid,
                                 tag,
-                                self.recorded_start_time_us + timestamp_us,
+                                self.reception_time_us_from(timestamp_us),
                                 timestamp_us,
                             )
                         } else {
@@ -345,7 +354,7 @@ where
                         let mtin: u8 = log_level as u8;
                         let log_msg = DltMessage {
                             index,
-                            reception_time_us: self.recorded_start_time_us + timestamp_us, // should be from last... (but we'd need to scan all)
+                            reception_time_us: self.reception_time_us_from(timestamp_us), // should be from last... (but we'd need to scan all)
                             ecu: self.ecu.to_owned(),
                             timestamp_dms: self.timestamp_dms_from(timestamp_us),
                             standard_header: DltStandardHeader {
@@ -386,8 +395,10 @@ where
                             // a) if the threadtime was < 1.1. 12:00:00 (so assuming 1.1.70, not true at start of each year!)
                             //    we do use as monotonic timestamp the time since 1.1.1970
                             // b) otherwise we do use for the first message 10_000s and use the distance from first message to cur message as timestamp
+                            // (a threadtime before the 1.1. is from the prev. year and not a time since 1.1.1970)
                             let (timestamp_us, reception_time_us) = if threadtime
                                 < self.max_threadtime_treat_as_timestamp
+                                && threadtime >= self.max_threadtime_treat_as_timestamp_start
                             {
                                 // case a
                                 // as reception time we use the recorded_start_time_us +timestamp
@@ -399,7 +410,7 @@ where
                                     .unwrap_or_default()
                                     as u64;
                                 self.threadtime_last_monotonic_timestamp = timestamp_us;
-                                (timestamp_us, self.recorded_start_time_us + timestamp_us)
+                                (timestamp_us, self.reception_time_us_from(timestamp_us))
                             } else {
                                 // here we'd need to use the max timestamp_us from the case a) as first timestamp
                                 let recorded_time_us =
@@ -410,7 +421,7 @@ where
                                     recorded_time_us.saturating_sub(timestamp_reference)
                                 } else {
                                     let timestamp_reference =
-                                        recorded_time_us - self.threadtime_last_monotonic_timestamp;
+                                        recorded_time_us.saturating_sub(self.threadtime_last_monotonic_timestamp);
                                     self.threadtime_timestamp_reference = Some(timestamp_reference);
                                     self.threadtime_last_monotonic_timestamp
                                 };
